@@ -44,6 +44,11 @@ class Main:
         return Q.monitor(lines, out)
 
     @staticmethod
+    def compare(lines, m, i):
+        # responses of subscriptions opened through the sdv handler are maps: compared sorted by name
+        return Q.canon_sdv(lines, m or []) == Q.canon_sdv(lines, i or [])
+
+    @staticmethod
     def nontrivial(lines, out):
         al = Q.split_outputs(lines, out)
         if al is None:
